@@ -10,6 +10,12 @@ pub mod std_gaps {
     pub broadcast axiom fn axiom_ordering_eq(a: core::cmp::Ordering, b: core::cmp::Ordering)
         ensures #[trigger] PartialEqSpec::eq_spec(&a, &b) == (a == b);
 
+    pub assume_specification<T>[ core::mem::replace ](dest: &mut T, src: T) -> (r: T)
+        ensures r == *old(dest), *final(dest) == src;
+    pub assume_specification<T, U, F: FnOnce(T) -> U>[ Option::<T>::map_or ](o: Option<T>, default: U, f: F) -> (r: U)
+        requires o is Some ==> call_requires(f, (o->0,)),
+        ensures (match o { None => r == default, Some(x) => call_ensures(f, (x,), r) });
+
     pub assume_specification<T: core::cmp::Ord>[ core::cmp::max ](a: T, b: T) -> (r: T)
         ensures
             <T as OrdSpec>::obeys_cmp_spec() ==> r == (if a.cmp_spec(&b) == core::cmp::Ordering::Greater { a } else { b });
